@@ -17,9 +17,16 @@ def run(rep, tier):
     b = runner.correspondence(rep, prop=PROP, mod_name="harness.evsim", driver_kind="evmap", ncases=nm,
                               extra=("map", 0), nontrivial=lambda r: r["stats"]["repeats"] >= 1,
                               sample_fmt=lambda r: {"event map ops": r["lines"][1:12], "answers": r["obs"][:11]})
+    from .. import evsim
+    k = 4 if tier == "quick" else 5
+    c = runner.correspondence(rep, prop=PROP, mod_name="harness.evsim", driver_kind="evmap", ncases=evsim.map_exh_count(k),
+                              extra=("mapexh", k))
     rep.coverage.update(a)
+    rep.coverage["bounded_exhaustive"] = {"what": "ALL event-map op sequences (add/index of 3 sources, size, sources, freeze)",
+                                          "sequence_length": k, "cases": c["evaluations"], "correspondence_diffs": c["correspondence_diffs"],
+                                          "oracle_failures": c["oracle_failures"]}
     for k in ("evaluations", "distinct_nontrivial", "traces_validated_against_impl", "correspondence_diffs", "oracle_failures", "protocol_lines"):
-        rep.coverage[k] = a[k] + b[k]
+        rep.coverage[k] = a[k] + b[k] + (c[k] if k != "distinct_nontrivial" else 0)
     rep.coverage["samples"] = a["samples"] + b["samples"]
     rep.coverage["distribution"] = {"monitor": a["distribution"], "event_map": b["distribution"]}
     rep.coverage["rule"] = ("monitors with 0-9 sources of mixed level/rise/fall modes in amaranth.sim, random/sparse/busy waveforms, random "
